@@ -102,6 +102,13 @@ def r2_lower(ctx, P):
             ok = ok and up[0] == "assoc_const" and up[2] == "UP"
         ctx.inst(R, b.path, ok, f"guard drop writes {show(ws[0].value()) if ws else '?'} (current position aligned to the outer MIN_ALIGN)",
                  where=b.where(), site="drop aligns")
+        if ws:
+            recv = b.prov_operand(ws[0].term["args"][0], ws[0].site)
+            okc = expr_mentions(recv, lambda x: x[0] == "field" and x[2] == "chunk" and len(x) > 3 and str(x[3]).endswith("RawBump"))
+            ctx.inst(R, b.path, okc, "the chunk that is re-aligned is read from the scope's current-chunk cell when the guard drops "
+                     "(the closure may have moved to another chunk)" if okc else
+                     f"the guard re-aligns {show(recv)[:80]}, which is not the scope's current chunk at drop time: if the closure "
+                     "switched chunks the current position stays unaligned", where=b.where(ws[0].site), site="drop aligns the current chunk")
 
 
 def r3_scoped_aligned(ctx, P):
